@@ -156,6 +156,7 @@ def substrings(lit):
     return sorted(out, key=lambda s: (len(s), s))
 
 
+EXTERN_CONSTS = {'codecs.BOM_UTF16_LE': b'\xff\xfe', 'codecs.BOM_UTF16_BE': b'\xfe\xff', 'codecs.BOM_UTF8': b'\xef\xbb\xbf'}
 MAXCHAR = 0x2FFFF
 
 
@@ -558,7 +559,10 @@ class Exec:
         if isinstance(e.value, ast.Name) and e.value.id not in st.env:
             g = self.repo.lookup(self.f.module.name, e.value.id)
             if isinstance(g, tuple) and g[0] == 'module':
-                return Val(mk_r(self.w.static('extern:%s.%s' % (g[1], e.attr))), None)
+                q = '%s.%s' % (g[1], e.attr)
+                if q in EXTERN_CONSTS:
+                    return self.e_Constant(ast.Constant(EXTERN_CONSTS[q]), st)
+                return Val(mk_r(self.w.static('extern:' + q)), None)
             if isinstance(g, ClassInfo):
                 return self.class_attr(g, e.attr, st, e)
         recv = self.ev(e.value, st)
@@ -607,12 +611,18 @@ class Exec:
             return Val(mk_r(self.w.static('func:' + what.qual)), 'func')
         try:
             lit = ast.literal_eval(what)
+            is_lit = True
         except Exception:
-            lit = None
-        if isinstance(lit, (str, int, bool, type(None), bytes)):
+            lit, is_lit = None, False
+        if is_lit and isinstance(lit, (str, int, bool, type(None), bytes)):
             return self.e_Constant(ast.Constant(lit), st)
-        # class-level container: a static heap object whose contents are fixed by the class body
         key = 'classattr:%s.%s' % (k.qual, name)
+        if isinstance(what, ast.Call) and ast.unparse(what.func) == 're.compile' and what.args and isinstance(what.args[0], ast.Constant):
+            # a compiled regular expression: static pattern object, its source text is kept for the assumed contracts of re
+            self.w.patterns = getattr(self.w, 'patterns', {})
+            self.w.patterns[self.w.static(key)] = what.args[0].value
+            return Val(mk_r(self.w.static(key)), 'pattern')
+        # class-level container: a static heap object whose contents are fixed by the class body
         ref = Val(mk_r(self.w.static(key)), 'dict' if isinstance(lit, dict) else ('list' if isinstance(lit, list) else None))
         self.assume_static_container(st, ref, lit, key)
         return ref
@@ -764,13 +774,15 @@ class Exec:
                 pb = self.type_pred(kind, b.t, st)
                 self.raise_if(st, z3.Not(z3.And(pa, pb)), 'TypeError', 'safe/type-concat', e)
                 return self.new_list(st, z3.Concat(self.seq_of(st, a), self.seq_of(st, b)), kind)
-        if isinstance(op, ast.Add) and a.ty is None and b.ty is None and not self.spec_mode:
-            # dynamic '+': str + str or int + int, anything else is a TypeError
+        if isinstance(op, ast.Add) and (a.ty is None or b.ty is None) and a.ty in (None, 'str', 'char', 'bytes', 'int') and b.ty in (None, 'str', 'char', 'bytes', 'int'):
+            # dynamic '+': str + str, bytes + bytes or int + int, anything else is a TypeError
             both_s = z3.And(is_s(a.t), is_s(b.t))
+            both_y = z3.And(is_y(a.t), is_y(b.t))
             both_i = z3.And(is_i(a.t), is_i(b.t))
             if not z3.is_true(z3.simplify(both_i)):
-                self.raise_if(st, z3.Not(z3.Or(both_s, both_i)), 'TypeError', 'safe/type-add', e)
-                return Val(z3.If(both_s, mk_s(z3.Concat(sv(a.t), sv(b.t))), mk_i(iv(a.t) + iv(b.t))), None)
+                if not self.spec_mode:
+                    self.raise_if(st, z3.Not(z3.Or(both_s, both_y, both_i)), 'TypeError', 'safe/type-add', e)
+                return Val(z3.If(both_s, mk_s(z3.Concat(sv(a.t), sv(b.t))), z3.If(both_y, mk_y(z3.Concat(yv(a.t), yv(b.t))), mk_i(iv(a.t) + iv(b.t)))), None)
         if isinstance(op, (ast.Add, ast.Sub, ast.Mult, ast.FloorDiv, ast.Mod)):
             if isinstance(op, ast.Mult) and (self.is_strlike(a) or self.is_strlike(b)):
                 s_, n_ = (a, b) if self.is_strlike(a) else (b, a)
